@@ -45,9 +45,6 @@ Definition of_obs {A B} (f : A -> res B) (o : option A) : res B :=
 Definition res_map {A B} (f : A -> B) (r : res A) : res B :=
   match r with Ret a => Ret (f a) | Raise e => Raise e end.
 
-Fixpoint sort_tree (t : tree) : tree :=
-  match t with T _ n a ks => T None n (sort_items a) (map sort_tree ks) end.
-
 Definition res_eqb {A} (e : A -> A -> bool) (a b : res A) : bool :=
   match a, b with
   | Ret x, Ret y => e x y
